@@ -8,7 +8,20 @@ func extraMode(mode string, n int, r *rand.Rand) bool {
 		for _, x := range replay12() {
 			emit(x)
 		}
-		return true
+	case "replay11":
+		for _, x := range replay11() {
+			emit(x)
+		}
+	case "reduce":
+		for i := 0; i < n; i++ {
+			emit(genReduceCase(r))
+		}
+	case "e2e11":
+		for i := 0; i < n; i++ {
+			emit(genE2E11(r))
+		}
+	default:
+		return false
 	}
-	return false
+	return true
 }
